@@ -63,6 +63,7 @@ type state struct {
 	avoid  bool
 	failed bool
 	// program properties for the non-trivial rule
+	pendingSeq   []func() *step
 	nonFreshDest bool
 	roPhase      bool
 	steps        int
